@@ -521,7 +521,10 @@ func (c *compiler) compile(tok *token) []instruction {
 			}
 			if len(values) > 0 && len(target.Tokens) > 0 {
 				typ := types[target]
-				if slices.Contains([]Type{TypeUint8, TypeInt8, TypeUint32, TypeInt32, TypeFloat64}, typ) {
+				// a numeric type converts an untyped constant; a slice (map, func, pointer)
+				// type makes the initialiser nil the nil value of that type, which is what
+				// a later append takes its element type from (var s []float64 = nil)
+				if slices.Contains([]Type{TypeUint8, TypeInt8, TypeUint32, TypeInt32, TypeFloat64}, typ) || typ >= nillableMin {
 					res = append(res, instruction{Code: codeCast, A: reg(typ)})
 				}
 			}
